@@ -291,6 +291,12 @@ def gen_problem(rng, want_kinds=None, all_bounded=None, nvars=None, paraxial_onl
             if d['type'] == 'index':
                 lo = max(lo, 1.05)
             if bounded:
+                if d['type'] != 'index' and rng.random() < 0.2:
+                    # a limit of exactly 0 (non-negative air space, conic limited to [.., 0], one-sided tilt ...)
+                    if raw >= 0:
+                        lo = 0.0
+                    else:
+                        hi = 0.0
                 d['min_val'], d['max_val'] = lo, hi
                 if all_bounded is None and rng.random() < 0.25:
                     d[rng.choice(['min_val', 'max_val'])] = None
